@@ -1,8 +1,9 @@
 import Driver.Proto
 import Uft.Model.Demangle
 /- C13 driver.
-   dm <hex|->      -> result of the repaired model (fixed = true)
-   dmpre <hex|->   -> result of the model of the code as it is (fixed = false)
+   dm <hex|->      -> result of the repaired model (all repairs)
+   dmpre <hex|->   -> result of the model of the code as it is (no repair)
+   dmx <6 x 0|1> <hex|->  -> result with the selected repairs (F10 F10b F10c F10d F10e F10g)
    output: <hex|->  the returned string | NULL | CRASH <kind> | FUEL
 -/
 namespace Driver.C13
@@ -18,14 +19,95 @@ def showResult : Result → String
   | .crash k => "CRASH " ++ crashName k
   | .outOfFuel => "FUEL"
 
+def parseMask (m : String) : Option Fixes :=
+  match m.toList.map (· == '1') with
+  | [a, b, c, d, e, f] => if m.toList.all (fun x => x == '0' || x == '1') then some ⟨a, b, c, d, e, f⟩ else none
+  | _ => none
+
+def runOn (fx : Fixes) (hex : String) : String :=
+  match parseHexBytes hex with
+  | some bs => if bs.contains 0 then "bad-op" else showResult (demangle fx bs.toArray)
+  | none => "bad-op"
+
+/-! ### run-time monitor of the per-function specifications proved in Lemmas/Demangle.lean
+   (`spec <hex>`): every call of a grammar function is checked against its summary. -/
+
+def delta : Fn → Nat
+  | .expression | .unresolvedName | .baseUnresolvedName | .simpleId | .exprList | .exprListLoop
+  | .exprLoop | .unresLoop => 1
+  | _ => 0
+
+def isLoop : Fn → Bool
+  | .encLoop | .nestedLoop | .ulLoop | .typeLoop _ | .ftLoop _ | .argLoop | .exprListLoop | .exprLoop
+  | .unresLoop => true
+  | _ => false
+
+def rank : Fn → Nat
+  | .simpleId => 1
+  | .baseUnresolvedName | .unresLoop => 2
+  | .unresolvedName => 3
+  | .expression => 4
+  | .exprListLoop | .exprLoop => 5
+  | .exprList => 6
+  | .exprPrimary | .decltype | .vectorType | .functionType | .arrayType | .ptrToMember | .templateArgs
+  | .ctorDtorName | .operatorName | .initializer | .localName | .nestedName | .specialName => 1
+  | .unresolvedType => 2
+  | .destructorName => 3
+  | .unqualifiedName => 2
+  | .name | .nestedLoop => 3
+  | .typeLoop _ => 4
+  | .type => 5
+  | .ulLoop | .ftLoop _ | .encLoop | .templateArg => 6
+  | .argLoop => 7
+  | .encoding => 7
+
+def fnName (f : Fn) : String := (toString (repr f)).replace "Uft.Demangle.Fn." ""
+
+def specViolations (f : Fn) (st : St) (r : Int) (st' : St) : List String :=
+  (if st'.pos + delta f < st.pos then ["lower"] else []) ++
+  (if st'.pos < st.pos && !st'.expected then ["dec-without-expected"] else []) ++
+  (if st.expected && !st'.expected then ["expected-reset"] else []) ++
+  (if r ≥ 0 && !isLoop f && st'.pos ≤ st.pos then ["success-without-progress"] else []) ++
+  (if r ≥ 0 && isLoop f && st'.pos < st.pos then ["loop-success-decrement"] else []) ++
+  (if st'.len > st.len then ["len-grew"] else []) ++
+  (if st'.pos > st'.len then ["pos>len"] else [])
+
+/-- `run` with every call checked; violations are reported through `dbgTrace` (stderr). -/
+def runChk : Nat → Fn → M Int
+  | 0, _ => fun _ _ => .fuel
+  | n + 1, f => fun e st =>
+    let rec' : Fn → M Int := fun g e' st' =>
+      let bad := st'.pos < st.pos || (st'.pos == st.pos && rank g ≥ rank f)
+      if bad then
+        dbgTrace s!"SPEC call {fnName f}@{st.pos} -> {fnName g}@{st'.pos}" fun _ => runChk n g e' st'
+      else runChk n g e' st'
+    match body rec' f e st with
+    | .ok r st' =>
+      let v := specViolations f st r st'
+      if v.isEmpty then .ok r st'
+      else dbgTrace s!"SPEC {fnName f} {v} pos {st.pos}->{st'.pos} len {st.len}->{st'.len} r={r}" fun _ => .ok r st'
+    | x => x
+
+def specRun (hex : String) : String :=
+  match parseHexBytes hex with
+  | some bs =>
+    let s := bs.toArray
+    if s.getD 0 0 == 95 && s.getD 1 0 == 90 then
+      match runChk (8 * (s.size + 1)) .encoding { s := s, fx := Fixes.all } { pos := 0, len := s.size } with
+      | .ok r st => s!"ok {r} {st.pos}"
+      | .crash k => "CRASH " ++ crashName k
+      | .fuel => "FUEL"
+    else "skip"
+  | none => "bad-op"
+
 def handle (ws : List String) : String :=
   match ws with
-  | [cmd, hex] =>
-    if cmd != "dm" && cmd != "dmpre" then "bad-op" else
-    match parseHexBytes hex with
-    | some bs =>
-      if bs.contains 0 then "bad-op" else
-      showResult (demangle (cmd == "dm") bs.toArray)
+  | ["dm", hex] => runOn Fixes.all hex
+  | ["dmpre", hex] => runOn Fixes.none hex
+  | ["spec", hex] => specRun hex
+  | ["dmx", mask, hex] =>
+    match parseMask mask with
+    | some fx => runOn fx hex
     | none => "bad-op"
   | _ => "bad-op"
 
